@@ -317,12 +317,18 @@ pub struct SmallCase {
 	/// dynamic sites sharing the bootstrap method of the first one (see gen::share_bsms); 0 = none
 	#[serde(default)]
 	pub share: u16,
+	/// an attribute payload around / beyond 64 KiB (gen::add_big_attribute); 0 = none
+	#[serde(default)]
+	pub big: u32,
 }
 
 fn small(case: &SmallCase, obs: &mut Obs) -> PropResult {
 	let mut model = class_from_stream(&case.stream, 4, 40);
 	let shared = crate::classfile::gen::share_bsms(&mut model, case.share);
 	obs.label_if(shared > 0, "dynamic_sites_sharing_a_bootstrap_method");
+	if let Some(size) = crate::classfile::gen::add_big_attribute(&mut model, case.big) {
+		obs.label(if size > 65535 { "attribute_payload>65535" } else { "attribute_payload<=65535" });
+	}
 	let enc = match encode(&model, &case.ch) {
 		Ok(e) => e,
 		Err(EncodeError::BranchTooFar { .. }) | Err(EncodeError::CodeTooLarge(_)) | Err(EncodeError::PoolTooLarge) => {
@@ -829,7 +835,7 @@ pub fn run(ctx: &mut Ctx) {
 	ctx.rule = "trees are obtained by duke::read_class from (a) class models of C01's generator under generated encodings, (c) the same after a renaming by dukebox::remap with a generated remapper, and (b) geometry classes: a filler method first-uses >=256 constants so that `ldc`s of the second method grow to `ldc_w` when re-written, stretching jumps laid out at 32767+-8 / -32768+-8 (if*/goto/jsr, forward/backward, nested so that widening one jump pushes another over, switches behind the stretched region, locals around 255/256/65535, total size around 65535). Oracle: duke::write_class output passes the harness's strict JVMS decoder (indices, tags, exact lengths, code limits, boundaries, padding) and decodes to the projection of the tree, where an expected `if<c> T` may appear as `if<!c> +2; goto_w T` and every index-bearing table entry is compared through the alignment; an Err is accepted only if some method cannot fit 65535 bytes in its worst-case encoding. Non-trivial = (a) method with branch and pool reference, (b) output contains a widened jump or a grown ldc; distinct by case hash".into();
 	ctx.assume("trees come from reading valid class files (a Label cannot be constructed outside duke)");
 	ctx.assume("no particular encoding, constant pool order or attribute order is required of the output");
-	ctx.run_sub("write_read_trees", ctx.tier.pick(24000, 1200000), || (class_stream(), choices(), prop_oneof![2 => Just(0u16), 1 => Just(0xffffu16), 1 => any::<u16>()]).prop_map(|(stream, ch, share)| SmallCase { stream, ch, share }), small);
+	ctx.run_sub("write_read_trees", ctx.tier.pick(24000, 1200000), || (class_stream(), choices(), prop_oneof![2 => Just(0u16), 1 => Just(0xffffu16), 1 => any::<u16>()], crate::classfile::gen::big_choice()).prop_map(|(stream, ch, share, big)| SmallCase { stream, ch, share, big }), small);
 	ctx.run_sub("branch_geometry", ctx.tier.pick(800, 40000), geo_strategy, geometry);
 	code_limit(ctx);
 	ctx.run_sub(
